@@ -1,21 +1,21 @@
 """Which units / harnesses decide which property."""
 
 # unit -> Verus rlimit ("roughly seconds"); every function is far below it on the unchanged tree
-UNIT_RLIMIT = {'conn': 60, 'lemmas': 60, 'oneshot': 150, 'request': 60, 'client': 60, 'response': 120, 'router': 60, 'headers': 60}
+UNIT_RLIMIT = {'conn': 60, 'lemmas': 60, 'oneshot': 150, 'request': 60, 'client': 60, 'response': 120, 'router': 60, 'headers': 60, 'server': 60}
 
 PROPS = {
     'C01': dict(units=['conn', 'lemmas', 'client'], kani=['find_first_match_1', 'find_first_match_2'],
                 title='Delivered requests depend only on the byte stream, not on how reads split it'),
     'C02': dict(units=['conn', 'request', 'headers'], kani=['method_try_from_exact', 'version_try_from_exact', 'method_roundtrip', 'version_roundtrip', 'find_first_match'],
                 title='Accepted requests are exactly those of the documented grammar'),
-    'C03': dict(units=['conn', 'request', 'client', 'response'],
+    'C03': dict(units=['conn', 'request', 'client', 'response', 'server'],
                 kani=['method_try_from_exact', 'version_try_from_exact', 'find_first_match', 'uri_abs_path_all'],
                 title='No input makes any parsing entry point panic, hang or block'),
-    'C04': dict(units=['conn', 'lemmas', 'client', 'headers'], kani=[], title='Payload and line-length limits are enforced exactly and before buffering'),
+    'C04': dict(units=['conn', 'lemmas', 'client', 'headers', 'server'], kani=[], title='Payload and line-length limits are enforced exactly and before buffering'),
     'C05': dict(units=['response'], kani=['status_code_raw', 'mediatype_as_str', 'header_raw_names', 'status_line_bytes', 'write_body_bytes', 'deprecation_header_line', 'allow_header_line'],
                 title='Serialized responses are well-formed and self-delimiting'),
     'C06': dict(units=['conn'], kani=[], title='Queued responses reach the stream completely, once, in order'),
-    'C07': dict(units=['client'], kani=[], title='A response is delivered only to the connection that sent its request'),
+    'C07': dict(units=['client', 'server'], kani=[], title='A response is delivered only to the connection that sent its request'),
     'C09': dict(units=['client'], kani=[], title='No client can wedge the server'),
     'C11': dict(units=['conn', 'lemmas', 'client'], kani=[], title='A rejected request is never delivered later'),
     'C12': dict(units=['conn', 'lemmas'], kani=[], title='Descriptors passed with a request are delivered once, in order'),
